@@ -49,6 +49,11 @@ theorem omitEmpty_total (pats : List (List String)) (m : List (String × GoVal))
   simp only [omitEmpty]
   intro h; cases h
 
+/-- `OmitEmpty` runs after each file's schema validation and before the next one's: since C04's repair ("OmitEmpty
+keeps an empty sequence empty") its result contains no nil slice, on any tree -/
+theorem omitEmpty_leaves_no_nil (pats : List (List String)) (v : GoVal) (p : TPath) : noNil (omitEmpty pats v p) = true :=
+  omitEmpty_noNil pats v p
+
 /-- what reaches gojsonschema after `convertToStringKeysRecursive` and `fixEmptyNotNull`: string-keyed mappings
 only and no nil slice anywhere (the two shapes gojsonschema cannot handle), for every input tree -/
 theorem walkers_establish_schema_input (raw v : GoVal) (h : convert raw = .ok v) :
